@@ -126,6 +126,20 @@ def annulene(cname, n, lig, par):
     return s
 
 
+def biatrop(cname, par, mixed, zsame):
+    """(round 3) two atrop axes X(0)Y(1)C2-C3(Z4)-L5-C9(Z10)-C8 X(6)Y(7) sharing the linker atom 5; the second axis carries the opposite parity (meso form), written
+    either in the same notation as the first or (mixed) with the two substituents of its outer end exchanged and the parity flipped - the same arrangement"""
+    s = _spec(cname)
+    z = "Br" if zsame else "I"
+    s["atoms"] = [(0, "F", {}), (1, "Cl", {}), (2, "C", {}), (3, "C", {}), (4, "Br", {}), (5, "O", {}),
+                  (6, "F", {}), (7, "Cl", {}), (8, "C", {}), (9, "C", {}), (10, z, {})]
+    s["bonds"] = [(0, 2, None, {}), (1, 2, None, {}), (2, 3, None, {}), (3, 4, None, {}), (3, 5, None, {}),
+                  (6, 8, None, {}), (7, 8, None, {}), (8, 9, None, {}), (9, 10, None, {}), (9, 5, None, {})]
+    second = ("Atrop", (7, 6, 8, 9, 10, 5), par) if mixed else ("Atrop", (6, 7, 8, 9, 10, 5), -par)
+    s["bstereo"] = [("Atrop", (0, 1, 2, 3, 4, 5), par), second]
+    return s
+
+
 def sn2(variant, pr, pp, fleeting):
     """SCRG: C0 with H1 F2 Cl3; nucleophile 4 (formed bond 0-4), leaving group 5 (broken bond 0-5)."""
     s = _spec("SCRG")
